@@ -51,6 +51,7 @@ func runC14(c *core.Ctx) {
 	x.roi()
 	x.errWorks()
 	x.cursor()
+	x.leafAssign()
 }
 
 // ---------- small helpers ----------
@@ -1623,4 +1624,73 @@ func (x *c14x) cursor() {
 			}
 		}
 	}
+}
+
+// leafAssign (V.leaf.assign; evaluated under C14 and C15): ChunkReader.nextChunk —
+// the index of the element NextChunk turns into a Chunk — is assigned (other than
+// by ++) only a value i on a path where `currNode.isLeaf(i)` was found true. An
+// index node may mix leaf and branch children (TTag 0xFE); positioning on a
+// branch element hands index-node bytes to the codec as if they were a chunk
+// (independently seeded change C14-5 added a seek fast path that binary-searches
+// the current node and stores the result without looking at isLeaf).
+func (x *c14x) leafAssign() {
+	c, k := x.c, x.k
+	fNext := x.field("ChunkReader", "nextChunk")
+	crObj := k.obj("anchors", c14Rac, "ChunkReader")
+	if fNext == nil || crObj == nil {
+		return
+	}
+	p := k.g.Pkg(c14Rac)
+	n := 0
+	for _, f := range k.g.AllFuncs(p) {
+		info := f.Info()
+		var stores []*ast.AssignStmt
+		ast.Inspect(f.Decl.Body, func(m ast.Node) bool {
+			as, ok := m.(*ast.AssignStmt)
+			if ok && as.Tok == token.ASSIGN && len(as.Lhs) == len(as.Rhs) {
+				for _, l := range as.Lhs {
+					if core.FieldOf(info, l, fNext) {
+						stores = append(stores, as)
+					}
+				}
+			}
+			return true
+		})
+		if len(stores) == 0 {
+			continue
+		}
+		fl := core.NewFlow(f)
+		for _, st := range stores {
+			st := st
+			var val ast.Expr
+			for i, l := range st.Lhs {
+				if core.FieldOf(info, l, fNext) {
+					val = c14Strip(info, st.Rhs[i])
+				}
+			}
+			if v, isC := core.ConstInt64(info, val); isC && v == 0 {
+				continue // reset to the first element is decided by the descent that follows it
+			}
+			n++
+			vo := fl.Obj(val)
+			k.mustPass("V.leaf.assign", f.Name()+"["+core.Src(k.g.Fset, st)+"]",
+				"nextChunk is positioned on an element only after isLeaf found it to be a leaf: an index node may mix leaf and branch children, and a branch element must be descended into, not returned as a chunk",
+				fl, core.Query{
+					Exit: func(m ast.Node) bool { return m == ast.Node(st) },
+					Events: []core.Event{{Edge: func(cond ast.Expr, ci *core.CondInfo, taken bool) bool {
+						ce, neg := boolCond(cond)
+						if neg {
+							taken = !taken
+						}
+						call, ok := ce.(*ast.CallExpr)
+						if !ok || !taken || len(call.Args) != 1 {
+							return false
+						}
+						fn := core.Callee(info, call)
+						return fn != nil && fn.Name() == "isLeaf" && vo != nil && fl.Obj(c14Strip(info, call.Args[0])) == vo
+					}}},
+				})
+		}
+	}
+	c.Floor("V.leaf.assign", "positioning stores to ChunkReader.nextChunk", n, 1)
 }
